@@ -104,10 +104,13 @@ def generate():
     rows = []
     for name, ann in fields:
         kind, none_default = flags.get(name, ("", False))
-        lname, cast = loaded.get(name, ("", ""))
+        # the local that load() hands to FontConfig under this field's name, and the option that local was popped as
+        # (the local need not be called like the field)
+        var = passed.get(name, "")
+        lname, cast = loaded.get(var, ("", ""))
         rows.append(
             f'  CfgRow "{name}"%string "{ann}"%string "{kind}"%string {b(none_default)} '
-            f'{b(written.get(name) == name)} {b(lname == name)} "{cast}"%string {b(passed.get(name) == name)} {b(name in rebound)}'
+            f'{b(written.get(name) == name)} {b(lname == name)} "{cast}"%string {b(var in loaded and lname == name)} {b(var in rebound)}'
         )
     extra_written = sorted(k for k in written if k not in dict(fields))
     extra_passed = sorted(k for k in passed if k not in dict(fields))
